@@ -61,7 +61,8 @@ Record LInv (s : lstate) : Prop := {
   I_refs : forall t n a, refs (pc_of s t) = Some (n, a) -> find n (lmap s) = Some a;
   I_held : forall t n a, cs (pc_of s t) = Some (n, a) -> held (ctr_at s a) = Some t;
   I_count : forall n a, find n (lmap s) = Some a -> waiters (ctr_at s a) = Z.of_nat (cnt (is_wa n a) (pcs s));
-  I_live : forall n a, find n (lmap s) = Some a -> exists t, refs (pc_of s t) = Some (n, a)
+  I_live : forall n a, find n (lmap s) = Some a -> exists t, refs (pc_of s t) = Some (n, a);
+  I_owner : forall n a t, find n (lmap s) = Some a -> held (ctr_at s a) = Some t -> cs (pc_of s t) = Some (n, a)
 }.
 
 Lemma is_wa_refs n a p : is_wa n a p = true -> refs p = Some (n, a).
@@ -148,6 +149,11 @@ Proof.
       * rewrite (I_count s I n2 a2 H2). rewrite andb_false_r. lia.
     + intros n2 a2 H2. destruct (I_live s I n2 a2 H2) as [t0 H0]. exists t0. rewrite pc_of_upd by exact Ht.
       destruct (Nat.eqb_spec t0 t) as [->|]; [rewrite Hpc in H0; discriminate|exact H0].
+    + intros n2 a2 t2 H2. rewrite ctr_at_upd by exact Ha. rewrite pc_of_upd by exact Ht.
+      assert (Hh : held (if Nat.eqb a2 a then {| held := held (ctr_at s a); waiters := waiters (ctr_at s a) + 1 |} else ctr_at s a2) = held (ctr_at s a2))
+        by (destruct (Nat.eqb_spec a2 a) as [->|]; reflexivity).
+      rewrite Hh. intros Hheld. pose proof (I_owner s I n2 a2 t2 H2 Hheld) as Hc.
+      destruct (Nat.eqb_spec t2 t) as [->|]; [rewrite Hpc in Hc; discriminate|exact Hc].
   - (* a new counter *)
     remember (length (heap s)) as a eqn:Ea.
     assert (Hold : forall n' a', find n' (lmap s) = Some a' -> a' < a) by (intros; subst a; eapply (I_range s I); eauto).
@@ -180,6 +186,11 @@ Proof.
       * intros [= <-]. exists t. rewrite pc_of_upd by exact Ht. now rewrite Nat.eqb_refl.
       * intros H2. destruct (I_live s I n2 a2 H2) as [t0 H0]. exists t0. rewrite pc_of_upd by exact Ht.
         destruct (Nat.eqb_spec t0 t) as [->|]; [rewrite Hpc in H0; discriminate|exact H0].
+    + intros n2 a2 t2. cbn [find]. rewrite pc_of_upd by exact Ht. destruct (N.eqb_spec n2 n) as [->|Hne].
+      * intros [= <-]. unfold ctr_at. cbn [heap]. rewrite app_nth2 by lia. rewrite <- Ea, Nat.sub_diag. cbn [nth held]. discriminate.
+      * intros H2. unfold ctr_at at 1. cbn [heap]. rewrite Hnth by (eapply Hold; eauto). intros Hheld.
+        pose proof (I_owner s I n2 a2 t2 H2 Hheld) as Hc.
+        destruct (Nat.eqb_spec t2 t) as [->|]; [rewrite Hpc in Hc; discriminate|exact Hc].
 Qed.
 
 Lemma cs_refs p n a : cs p = Some (n, a) -> refs p = Some (n, a).
@@ -193,9 +204,12 @@ Lemma LInv_move s t n a p' c' :
   (cs p' = Some (n, a) -> held c' = Some t) ->
   (* the count stays right *)
   waiters c' = (waiters (ctr_at s a) - (if is_wa n a (pc_of s t) then 1 else 0) + (if is_wa n a p' then 1 else 0))%Z ->
+  (* whoever the counter names as its holder is in the critical section *)
+  (forall t2, held c' = Some t2 -> (t2 = t /\ cs p' = Some (n, a)) \/ (t2 <> t /\ cs (pc_of s t2) = Some (n, a))) ->
+  (cs (pc_of s t) = Some (n, a) -> cs p' = Some (n, a)) ->
   LInv {| heap := upd a c' (heap s); lmap := lmap s; pcs := upd t p' (pcs s) |}.
 Proof.
-  intros I Hr Hr' Hheld Hself Hcount.
+  intros I Hr Hr' Hheld Hself Hcount Hown Hkeep.
   assert (Ht : t < length (pcs s)) by (apply busy_lt; intros E; rewrite E in Hr; discriminate).
   pose proof (I_refs s I t n a Hr) as Hf. pose proof (I_range s I n a Hf) as Ha.
   constructor; cbn [heap lmap pcs].
@@ -214,6 +228,13 @@ Proof.
     + rewrite (I_count s I n2 a2 H2). rewrite (is_wa_other_addr n a n2 a2 _ Hr Hne), (is_wa_other_addr n a n2 a2 _ Hr' Hne). lia.
   - intros n2 a2 H2. destruct (I_live s I n2 a2 H2) as [t0 H0]. exists t0. rewrite pc_of_upd by exact Ht.
     destruct (Nat.eqb_spec t0 t) as [->|]; [|exact H0]. rewrite Hr in H0. rewrite Hr'. exact H0.
+  - intros n2 a2 t2 H2. rewrite ctr_at_upd by exact Ha. rewrite pc_of_upd by exact Ht.
+    destruct (Nat.eqb_spec a2 a) as [->|Hne].
+    + assert (n2 = n) by (eapply (I_inj s I); eauto). subst n2. intros Hh. destruct (Hown t2 Hh) as [[-> Hc]|[Hne Hc]].
+      * now rewrite Nat.eqb_refl.
+      * destruct (Nat.eqb_spec t2 t); [contradiction|exact Hc].
+    + intros Hh. pose proof (I_owner s I n2 a2 t2 H2 Hh) as Hc. destruct (Nat.eqb_spec t2 t) as [->|]; [|exact Hc].
+      pose proof (cs_refs _ _ _ Hc) as Hc'. rewrite Hr in Hc'. injection Hc' as -> ->. contradiction.
 Qed.
 
 Lemma LInv_acquire s t : LInv s -> LInv (fst (lk_step s (Acquire t))).
@@ -226,6 +247,8 @@ Proof.
   - intros t' Hne n' a' Hcs ->. pose proof (I_held s I t' n' a Hcs). congruence.
   - reflexivity.
   - rewrite Hpc. cbn [waiters is_wa]. rewrite N.eqb_refl, Nat.eqb_refl. cbn. lia.
+  - cbn [held]. intros t2 [= <-]. left. split; reflexivity.
+  - reflexivity.
 Qed.
 
 Lemma LInv_dec s t : LInv s -> LInv (fst (lk_step s (Dec t))).
@@ -238,6 +261,8 @@ Proof.
   - intros t' Hne n' a' Hcs ->. cbn [held]. exact (I_held s I t' n' a Hcs).
   - intros _. exact Hme.
   - rewrite Hpc. cbn [waiters is_wa]. rewrite N.eqb_refl, Nat.eqb_refl. cbn. lia.
+  - cbn [held]. rewrite Hme. intros t2 [= <-]. left. split; reflexivity.
+  - reflexivity.
 Qed.
 
 (* the holder's Unlock always finds its own counter *)
@@ -282,6 +307,11 @@ Proof.
     + intros n2 a2. rewrite find_del. destruct (N.eqb_spec n2 n) as [->|Hne]; [discriminate|]. intros H2.
       destruct (I_live s I n2 a2 H2) as [t0 H0]. exists t0. rewrite pc_of_upd by exact Ht.
       destruct (Nat.eqb_spec t0 t) as [->|]; [rewrite Hpc in H0; cbn in H0; congruence|exact H0].
+    + intros n2 a2 t2. rewrite find_del. destruct (N.eqb_spec n2 n) as [->|Hne]; [discriminate|]. intros H2.
+      assert (a2 <> a) by (intros ->; apply Hne; eapply (I_inj s I); eauto).
+      rewrite ctr_at_upd by exact Ha. destruct (Nat.eqb_spec a2 a); [contradiction|]. intros Hh.
+      pose proof (I_owner s I n2 a2 t2 H2 Hh) as Hc. rewrite pc_of_upd by exact Ht.
+      destruct (Nat.eqb_spec t2 t) as [->|]; [rewrite Hpc in Hc; cbn in Hc; congruence|exact Hc].
   - (* somebody waits: the entry stays *)
     constructor; cbn [heap lmap pcs].
     + intros n0 a0 H. rewrite length_upd. exact (I_range s I n0 a0 H).
@@ -300,6 +330,9 @@ Proof.
         destruct (Nat.eqb_spec t1 t) as [->|]; [fold (pc_of s t) in H1; rewrite Hpc in H1; discriminate|].
         apply is_wa_refs. exact H1.
       * exists t0. rewrite pc_of_upd by exact Ht. destruct (Nat.eqb_spec t0 t); [contradiction|exact H0].
+    + intros n2 a2 t2 H2. rewrite ctr_at_upd by exact Ha. destruct (Nat.eqb_spec a2 a) as [->|]; [cbn [held]; discriminate|]. intros Hh.
+      pose proof (I_owner s I n2 a2 t2 H2 Hh) as Hc. rewrite pc_of_upd by exact Ht.
+      destruct (Nat.eqb_spec t2 t) as [->|]; [rewrite Hpc in Hc; cbn in Hc; congruence|exact Hc].
 Qed.
 
 Theorem LInv_step s o : LInv s -> LInv (fst (lk_step s o)).
@@ -338,3 +371,15 @@ Proof.
   destruct (pc_of s t) as [|n' a'|n' a'|n' a']; cbn in Ht; try discriminate; injection Ht as -> ->; apply N.eqb_refl.
 Qed.
 
+
+(* a Lock call is only ever blocked by a thread that is inside the critical section of the same name: the inner mutex of
+   a counter in the map is never left taken by nobody (no lost hand-over) *)
+Theorem blocked_by_a_holder s t n a : LInv s -> pc_of s t = Waiting n a -> snd (lk_step s (Acquire t)) = Blocked ->
+  exists t', t' <> t /\ in_cs s t' n = true.
+Proof.
+  intros I Hpc. cbn [lk_step]. rewrite Hpc. destruct (held (ctr_at s a)) as [t'|] eqn:Hh; [intros _|discriminate].
+  assert (Hf : find n (lmap s) = Some a) by (apply (I_refs s I t); rewrite Hpc; reflexivity).
+  pose proof (I_owner s I n a t' Hf Hh) as Hc. exists t'. split.
+  - intros ->. rewrite Hpc in Hc. discriminate.
+  - unfold in_cs. destruct (pc_of s t') as [|n' a'|n' a'|n' a']; cbn in Hc; try discriminate; injection Hc as -> ->; apply N.eqb_refl.
+Qed.
